@@ -96,7 +96,15 @@ def list_files(D):
 
 # --------------------------------------------------------------------------- the reader (property's oracle)
 
-def reader_check(name, data, old, versions):
+def zip_members(data):
+    try:
+        z = zipfile.ZipFile(io.BytesIO(data))
+        return sorted((zi.filename, zi.date_time, z.read(zi)) for zi in z.infolist())
+    except Exception as e:
+        return "unreadable: %s" % e
+
+
+def reader_check(name, data, old, versions, fault=False):
     """None if what a reader finds at the published path is acceptable, else the reason."""
     if data is None:
         return None                                   # absent
@@ -118,6 +126,18 @@ def reader_check(name, data, old, versions):
         return None
     if data in versions:
         return None
+    if name.endswith(".zip"):
+        # zipfile falls back to its streaming layout (data descriptors) when seek/tell fail: other bytes, same archive
+        sem = zip_members(data)
+        if any(sem == zip_members(v) for v in list(versions) + ([old] if old is not None else [])):
+            return None
+    if name.endswith(".json") and fault:
+        try:        # error report of render.write_traceback / Status(status="error"): a complete JSON object
+            obj = json.loads(data.decode("utf8"))
+            if isinstance(obj, dict) and obj.get("status") == "error":
+                return None
+        except Exception:
+            pass
     return "parses, but is neither the old nor a complete new version (%d bytes)" % len(data)
 
 
@@ -159,17 +179,30 @@ def one_run(job):
     for inj in job.get("inject", []):
         cmd += ["-e", "inject=" + inj]
     cmd += harness_cmd(producer, scenario, D, job["IN"])
-    p = subprocess.run(cmd, cwd=core.VERIF, env=core.impl_env(job["src"]), stdout=subprocess.PIPE,
+    extra = None
+    if job.get("close_fail"):
+        n, errno_ = job["close_fail"]
+        extra = {"LD_PRELOAD": job["shim"], "C20_CLOSE_FAIL": "%d:%d:%s" % (n, errno_, D)}
+    p = subprocess.run(cmd, cwd=core.VERIF, env=core.impl_env(job["src"], extra), stdout=subprocess.PIPE,
                        stderr=subprocess.STDOUT, timeout=180)
-    res = {"job": {k: job[k] for k in ("producer", "scenario", "old", "inject", "desc", "kind") if k in job},
+    res = {"job": {k: job[k] for k in ("producer", "scenario", "old", "inject", "desc", "kind", "close_fail") if k in job},
            "rc": p.returncode, "out": p.stdout.decode("utf8", "replace")[-400:]}
+    res["shim_fired"] = b"C20SHIM close failed" in p.stdout
     text = open(log, encoding="utf8", errors="surrogateescape").read()
     ab = st.Abstraction(D, finals)
     ab._nf = len(finals)
     for q in sorted(initial):
         ab.pid_(q)
-    events, killed, pids = st.parse_log(text)
-    ab.feed(events, pids[0])
+    res["parse_error"] = None
+    try:
+        events, killed, pids = st.parse_log(text, needles=(D, st.hex_needle(D)))
+        ab.feed(events, pids[0])
+    except Exception as e:      # fail closed: an unparsable log is a trace outside the language
+        res["parse_error"] = "%s: ...%s" % (type(e).__name__, str(e)[-300:])
+        events, killed = [], None
+        ab.relevant = []
+        ab.ops = ["X"]
+        ab.unsupported = [res["parse_error"]]
     res["killed"] = bool(killed)
     res["relevant"] = [(i, nm, k, events[i]["unfinished"], events[i]["injected"]) for i, nm, k in ab.relevant]
     res["unsupported"] = ab.unsupported[:5]
@@ -215,7 +248,8 @@ def one_run(job):
         fn = os.path.basename(fpath)
         data = after.get(fpath)
         old = old_version(fn) if job["old"] and scenario != "nodir" else None
-        why = reader_check(fn, data, old, job["versions"].get(fn, []))
+        why = reader_check(fn, data, old, job["versions"].get(fn, []),
+                           fault=bool(job.get("close_fail")) or any("error=" in x for x in job.get("inject", [])))
         res["reader"][fn] = why
         res["state"][fn] = ("absent" if data is None else "old" if data == old else
                             "new%d" % job["versions"][fn].index(data) if data in job["versions"].get(fn, []) else "OTHER")
@@ -234,19 +268,48 @@ def rel_desc(relevant, j):
 
 # --------------------------------------------------------------------------- the check
 
+ERRNO = {"ENOSPC": 28, "EIO": 5}
+
+
+def build_shim():
+    """LD_PRELOAD library that fails a close() the way Linux does (descriptor released); see c20_closefail.c"""
+    srcf = os.path.join(core.VERIF, "vt", "harness", "c20_closefail.c")
+    os.makedirs(core.CACHE, exist_ok=True)
+    so = os.path.join(core.CACHE, "c20_closefail-%s.so" % core.file_sha(srcf)[:12])
+    with core.flock("c20-shim"):
+        if not os.path.exists(so):
+            rc, out = core.sh(["gcc", "-shared", "-fPIC", "-O1", "-o", so + ".tmp", srcf, "-ldl"], timeout=120)
+            if rc != 0:
+                raise RuntimeError("shim build failed: " + out[-800:])
+            os.replace(so + ".tmp", so)
+    return so
+
+
 def build():
+    build_shim()
     return core.ocaml_build("c20", "C20/Extract.v", "driver.ml")
 
 
 def plan_groups(tier):
+    """per (producer, scenario, previous version?): stride of the kill enumeration and of the fault enumeration per
+    error kind (0 = none).  thorough: every tracked syscall, both error kinds, everywhere."""
     groups = []
     for prod, spec in PRODUCERS.items():
         for sc in [spec["main"]] + spec["more"]:
             main = sc == spec["main"]
             for old in (True, False):
-                if tier == "quick" and not old and not main:
+                g = {"producer": prod, "scenario": sc, "old": old, "main": main}
+                if tier == "thorough":
+                    g.update(kill=1, faults={"ENOSPC": 1, "EIO": 1}, faultable=FAULTABLE)
+                elif main and old:
+                    g.update(kill=1, faults={"ENOSPC": 1, "EIO": 2}, faultable=FAULTABLE[:-1])
+                elif main:
+                    g.update(kill=3, faults={}, faultable=())
+                elif old:
+                    g.update(kill=4, faults={"ENOSPC": 4}, faultable=FAULTABLE[:-1])
+                else:
                     continue
-                groups.append({"producer": prod, "scenario": sc, "old": old, "main": main})
+                groups.append(g)
     return groups
 
 
@@ -257,8 +320,8 @@ def check(run):
                 "fetch.download_to_file -> transport.download_with_retries over httpx.MockTransport (ok / 429 then ok / "
                 "connection reset mid-stream / 500), render.main around tmpout->output with a dummy writer (ok / writer "
                 "raises).  Injections: none; SIGKILL at EVERY tracked syscall (strace inject=<syscall>:signal=KILL:when=k); "
-                "ENOSPC and EIO at every tracked openat/write/close/rename/unlink/mkdir/lseek (one-shot; thorough: also "
-                "persistent from that position on, and SIGKILL at every later tracked syscall of another name after a "
+                "ENOSPC and EIO at every tracked openat/write/close/rename/unlink/mkdir (thorough: also lseek; ENOSPC also "
+                "persistent from that position on; and SIGKILL at every later tracked syscall of another name after a "
                 "fault).  distinct = distinct (producer, scenario, old?, injection); non-trivial = an injection is present")
     run.trusted = [
         "Coq 8.16.1 kernel (coqc); vm_compute in the closed Examples only",
@@ -282,6 +345,7 @@ def check(run):
     src = core.snapshot()
     run.check_proofs("C20")
     exe = build()
+    shim = build_shim()
     base = os.path.join(core.scratch(), "c20")
     shutil.rmtree(base, ignore_errors=True)
     os.makedirs(base)
@@ -293,7 +357,7 @@ def check(run):
         return counter[0]
 
     groups = plan_groups(tier)
-    pool = cf.ThreadPoolExecutor(max_workers=min(16, core.NPROC))
+    pool = cf.ProcessPoolExecutor(max_workers=min(16, core.NPROC))
     # --- phase A: complete versions (record run, no strace) per (producer, scenario)
     vers = {}
     futs = {}
@@ -307,10 +371,10 @@ def check(run):
                    all(vers[(p, PRODUCERS[p]["main"])][fn] for p in PRODUCERS for fn in PRODUCERS[p]["finals"]),
                    "; ".join("%s/%s: %s" % (p, s, {k: len(v) for k, v in d.items()}) for (p, s), d in vers.items()))
 
-    def job(g, inject, kind, desc):
-        return {"src": src, "exe": exe, "base": base, "n": nxt(), "producer": g["producer"], "scenario": g["scenario"],
-                "old": g["old"], "IN": IN, "inject": inject, "versions": vers[(g["producer"], g["scenario"])],
-                "kind": kind, "desc": desc}
+    def job(g, inject, kind, desc, close_fail=None):
+        return {"src": src, "exe": exe, "shim": shim, "base": base, "n": nxt(), "producer": g["producer"],
+                "scenario": g["scenario"], "old": g["old"], "IN": IN, "inject": inject, "close_fail": close_fail,
+                "versions": vers[(g["producer"], g["scenario"])], "kind": kind, "desc": desc}
 
     # --- phase B: fault-free traced runs
     results = []
@@ -326,22 +390,27 @@ def check(run):
     fault_jobs = []
     for g, r in base_runs:
         rel = r["relevant"]
-        stride = 1
-        if tier == "quick" and not g["main"]:
-            stride = 3
-        for j in range(0, len(rel), stride):
+        nth = {}
+        for j in range(len(rel)):
             _i, name, k, _u, _inj = rel[j]
             d = rel_desc(rel, j)
-            futs.append((g, j, pool.submit(one_run, job(g, ["%s:signal=KILL:when=%d" % (name, k)], "kill", "kill@" + d))))
-            planned["kill"] += 1
-            if name in FAULTABLE:
-                for err in ERRORS:
-                    if tier == "quick" and (err == "EIO" and not g["main"] or not g["old"]):
+            if j % g["kill"] == 0:
+                futs.append((g, j, pool.submit(one_run, job(g, ["%s:signal=KILL:when=%d" % (name, k)], "kill", "kill@" + d))))
+                planned["kill"] += 1
+            if name in g["faultable"]:
+                for err, stride in g["faults"].items():
+                    nth[err] = nth.get(err, -1) + 1
+                    if nth[err] % stride:
                         continue
-                    whens = ["%d" % k] + (["%d+" % k] if tier == "thorough" else [])
+                    whens = ["%d" % k] + (["%d+" % k] if tier == "thorough" and err == "ENOSPC" else [])
                     for when in whens:
-                        jb = job(g, ["%s:error=%s:when=%s" % (name, err, when)], "fault",
-                                 "%s%s@%s" % (err, "+" if when.endswith("+") else "", d))
+                        dsc = "%s%s@%s" % (err, "+" if when.endswith("+") else "", d)
+                        if name == "close":
+                            # Linux releases the descriptor even when close fails; strace would skip the syscall
+                            rank = sum(1 for x in rel[:j + 1] if x[1] == "close")
+                            jb = job(g, [], "fault", dsc, close_fail=(-rank if when.endswith("+") else rank, ERRNO[err]))
+                        else:
+                            jb = job(g, ["%s:error=%s:when=%s" % (name, err, when)], "fault", dsc)
                         fut = pool.submit(one_run, jb)
                         futs.append((g, j, fut))
                         fault_jobs.append((g, j, name, jb, fut))
@@ -357,23 +426,25 @@ def check(run):
                 misaligned.append("%s/%s old=%s %s: killed=%s tracked syscalls seen %d, expected %d" % (
                     g["producer"], g["scenario"], g["old"], r["job"]["desc"], r["killed"], len(rel), j + 1))
         else:
-            if not (len(rel) > j and rel[j][4]):
+            if not (r["shim_fired"] if r["job"].get("close_fail") else (len(rel) > j and rel[j][4])):
                 misaligned.append("%s/%s old=%s %s: injected error not at the intended syscall" % (
                     g["producer"], g["scenario"], g["old"], r["job"]["desc"]))
     # --- phase D (thorough): kill at every later tracked syscall after a one-shot fault
     if tier == "thorough":
         futs = []
         for g, j, name, jb, fut in fault_jobs:
-            if jb["inject"][0].endswith("+") or not g["old"]:
+            if (jb["inject"] and jb["inject"][0].endswith("+")) or (jb["close_fail"] and jb["close_fail"][0] < 0) or not g["old"]:
                 continue
+            if not jb["desc"].startswith("ENOSPC"):
+                continue                # the handlers do not look at errno: one error kind for the combinations
             r = fut.result()
             rel = r["relevant"]
             for j2 in range(j + 1, len(rel)):
                 _i, name2, k2, _u, _inj = rel[j2]
-                if name2 == name:
+                if name2 == name and not jb["close_fail"]:
                     continue            # strace keeps one injection per syscall name
-                jb2 = job(g, [jb["inject"][0], "%s:signal=KILL:when=%d" % (name2, k2)], "fault+kill",
-                          jb["desc"] + ";kill@" + rel_desc(rel, j2))
+                jb2 = job(g, jb["inject"] + ["%s:signal=KILL:when=%d" % (name2, k2)], "fault+kill",
+                          jb["desc"] + ";kill@" + rel_desc(rel, j2), close_fail=jb["close_fail"])
                 futs.append(pool.submit(one_run, jb2))
                 planned["fault+kill"] += 1
         for f in futs:
@@ -411,10 +482,16 @@ def check(run):
                                                                 "old" if jb["old"] else "fresh", jb["desc"]),
                         what="after %s a reader of %s finds a file that %s" % (jb["desc"], fn, why),
                         replay={"producer": jb["producer"], "scenario": jb["scenario"], "old": jb["old"],
-                                "inject": jb["inject"], "desc": jb["desc"], "final": fn})
+                                "inject": jb["inject"], "close_fail": jb.get("close_fail"), "desc": jb["desc"], "final": fn})
         if jb["kind"] in ("none", "kill", "fault") and len(run.samples) < 6 and (jb["kind"] != "none" or len(run.samples) < 2):
             if jb["producer"] in ("zip", "status", "download") and (jb["kind"] == "none" or "write" in jb["desc"]):
                 run.sample({"case": tag, "ops": r["n_ops"], "accepted": r["accept"], "final_state": r["state"], "rc": r["rc"]})
+    summ = {}
+    for h in run.hits:
+        k = h["fingerprint"].split(":")[1] + " " + h["fingerprint"].split("@")[-1].split("#")[0]
+        summ[k] = summ.get(k, 0) + 1
+    if summ:
+        core.log("[C20] reader hits by (published path, syscall): %s" % summ)
     run.tie("strace trace of the producer is in the safe_publish language (extracted recogniser, per published path)",
             n_traces, lang_dis)
     run.tie("FsTrace.run predicts the bytes of every tracked path on disk after the (killed / faulted) run",
@@ -426,9 +503,11 @@ def check(run):
                                                    len(r["relevant"]) for g, r in base_runs}
     run.coverage["input_distribution"] = dist
     run.coverage["exhaustive"] = tier == "thorough"
-    run.coverage["exhaustive_part"] = ("SIGKILL at every tracked syscall of every listed scenario" if tier == "thorough" else
-                                       "SIGKILL at every tracked syscall of the 5 main scenarios (with previous version; "
-                                       "without for main scenarios too); stride 3 for the other scenarios")
+    run.coverage["exhaustive_part"] = (
+        "SIGKILL at every tracked syscall and ENOSPC/EIO (one-shot and persistent) at every tracked syscall of every scenario, "
+        "with and without a previous version" if tier == "thorough" else
+        "with a previous version: SIGKILL and ENOSPC at every tracked syscall (EIO at every 2nd) of the 5 main scenarios; "
+        "stride 3 without previous version; stride 4 for the 9 other scenarios")
 
 
 def base_runs_name(base_runs, g, j):
@@ -452,8 +531,9 @@ def replay(obj):
     seed = int(os.environ.get("VERIF_SEED", "0") or 0)
     IN, _ = make_inputs(random.Random(seed * 1000003 + 20), base)
     vers = record_versions(src, base, 1, rp["producer"], rp["scenario"], IN)
-    r = one_run({"src": src, "exe": exe, "base": base, "n": 2, "producer": rp["producer"], "scenario": rp["scenario"],
-                 "old": rp["old"], "IN": IN, "inject": rp["inject"], "versions": vers, "kind": "replay", "desc": rp["desc"]})
+    r = one_run({"src": src, "exe": exe, "shim": build_shim(), "base": base, "n": 2, "producer": rp["producer"],
+                 "scenario": rp["scenario"], "old": rp["old"], "IN": IN, "inject": rp["inject"],
+                 "close_fail": rp.get("close_fail"), "versions": vers, "kind": "replay", "desc": rp["desc"]})
     print(json.dumps({k: r[k] for k in ("rc", "killed", "accept", "reader", "state", "model_diff", "unsupported")}, indent=1))
     bad = any(r["reader"].values())
     print("REPRODUCED" if bad else "not reproduced")
